@@ -224,32 +224,43 @@ def guarded_run(check, case):
 
 
 def _hyp_settings(n_examples, shrink=False):
-    from hypothesis import settings, HealthCheck, Phase
+    from hypothesis import settings, HealthCheck, Phase, Verbosity
     phases = [Phase.generate, Phase.shrink] if shrink else [Phase.generate]
     return settings(max_examples=max(1, n_examples), phases=phases, database=None,
                     deadline=None, derandomize=False, report_multiple_bugs=False,
                     suppress_health_check=[HealthCheck.too_slow],
-                    print_blob=False)
+                    print_blob=False, verbosity=Verbosity.quiet)
+
+
+class _Deadline(Exception):
+    """Raised inside the sweep to make Hypothesis stop generating at the deadline."""
 
 
 def run_generated(check, tier, seed, n_examples, deadline, tally, origin='generated'):
-    """Sweep ``n_examples`` generated cases through run_case, collecting."""
+    """Sweep ``n_examples`` generated cases through run_case, collecting.  At the
+    deadline the sweep is abandoned (budget_exhausted: inconclusive, never a
+    violation)."""
     import hypothesis
     from hypothesis import given
 
     strat = check.strategy(tier)
+    stop = [False]
 
     @hypothesis.seed(seed)
     @_hyp_settings(n_examples)
     @given(strat)
     def sweep(case):
-        if time.monotonic() > deadline:
+        if stop[0] or time.monotonic() > deadline:
             tally.budget_exhausted = True
-            return
+            stop[0] = True
+            raise _Deadline()
         outcome = guarded_run(check, case)
         tally.add(case, outcome, origin)
 
-    sweep()
+    try:
+        sweep()
+    except _Deadline:
+        pass
 
 
 class _Found(Exception):
